@@ -2,7 +2,7 @@
 
 Closed loop (real pipeline + FakeServer) with listing events re-delivered by "reconnect / 410 re-list" steps, edits
 before/during/after the resume cycle, a resume handler that fails first, restarts; handlers: resume,
-resume(deleted=True), create, update.
+resume(deleted=True), resume(deleted=False), create, update.
 """
 import asyncio
 import copy
@@ -23,13 +23,13 @@ ENCODED = [processing._detect_causes, processing.process_changing_cause, causes.
            registries.ChangingRegistry.iter_handlers, inventory.ResourceMemories.recall]
 META = {
     'bounds': 'one object; <=3 script steps (thorough 4) from {re-list (listing event in the same process), essential edit, restart (new '
-              'process + listing), resume handler fails next time, delete request, non-essential edit}; the object was handled before '
+              'process + listing), resume handler fails next time, delete request, non-essential edit, deletion requested while the operator is down}; the object was handled before '
               '(cell) or is new; quiescence bounded by 14 events.',
     'outside': 'several objects; watch-stream mechanics of a 410 (C19): a re-list is modelled as a listing event for the object',
     'stubs': ['api.patch -> FakeServer'],
     'assumptions': [],
 }
-STEPS = ['relist', 'edit', 'restart', 'fail_next_resume', 'delete', 'status_edit']
+STEPS = ['relist', 'edit', 'restart', 'fail_next_resume', 'delete', 'status_edit', 'delete_while_down']
 
 
 def run_history(cell, steps):
@@ -38,6 +38,7 @@ def run_history(cell, steps):
     w.add_handler(kopf.on.update, 'hu')
     w.add_handler(kopf.on.resume, 'hr')
     w.add_handler(kopf.on.resume, 'hrd', deleted=True)
+    w.add_handler(kopf.on.resume, 'hrn', deleted=False)      # an explicit opt-out is an opt-out, too
     if cell.get('delete_handler', True):
         w.add_handler(kopf.on.delete, 'hd')
     listings = []     # (incarnation, handled_before, deleting) at each listing event
@@ -76,6 +77,13 @@ def run_history(cell, steps):
                     w.delivered_rv = None
                     await listing()
                     continue
+                elif name == 'delete_while_down':
+                    # the deletion is requested while no operator runs; the next one finds the object already marked
+                    w.restart()
+                    w.delivered_rv = None
+                    w.server.write(lambda o: o['metadata'].update(deletionTimestamp='2020-01-01T00:00:00Z'))
+                    await listing()
+                    continue
                 elif name == 'fail_next_resume':
                     for hid in ('hrd',):      # one of the two resume handlers fails temporarily, the other succeeds
                         n = len([i for i in w.invocations if i['id'] == hid])
@@ -101,7 +109,7 @@ def run_history(cell, steps):
 
 def h_resume(s0: int, s1: int, s2: int, s3: int) -> bool:
     """
-    pre: 0 <= s0 <= 5 and 0 <= s1 <= 5 and 0 <= s2 <= 5 and 0 <= s3 <= 5
+    pre: 0 <= s0 <= 6 and 0 <= s1 <= 6 and 0 <= s2 <= 6 and 0 <= s3 <= 6
     post: _ == True
     """
     vkopf.begin_path()
@@ -116,7 +124,7 @@ def h_resume(s0: int, s1: int, s2: int, s3: int) -> bool:
     ok = bool(conv)
     incs = sorted({i for i, _, _ in listings})
     for inc in incs:
-        for hid in ('hr', 'hrd'):
+        for hid in ('hr', 'hrd', 'hrn'):
             succ = [i for i in w.invocations if i['id'] == hid and i['incarnation'] == inc and i['outcome'] == 0]
             if len(succ) > 1:
                 ok = False                       # at most one completion per object per process
@@ -126,16 +134,19 @@ def h_resume(s0: int, s1: int, s2: int, s3: int) -> bool:
         first = [l for l in listings if l[0] == inc][0]
         last_inc = inc == incs[-1]
         if first[1] and last_inc:
-            deleted_later = any(STEPS[s] == 'delete' for s in steps)
+            deleted_later = any(STEPS[s] in ('delete', 'delete_while_down') for s in steps)
             got_hr = any(i['id'] == 'hr' and i['incarnation'] == inc and i['outcome'] == 0 for i in w.invocations)
             got_hrd = any(i['id'] == 'hrd' and i['incarnation'] == inc and i['outcome'] == 0 for i in w.invocations)
             if not first[2] and not deleted_later and not (got_hr and got_hrd):
                 ok = False
-            if first[2] and got_hr:
+            got_hrn = any(i['id'] == 'hrn' and i['incarnation'] == inc and i['outcome'] == 0 for i in w.invocations)
+            if not first[2] and not deleted_later and not got_hrn:
+                ok = False
+            if first[2] and (got_hr or got_hrn):
                 ok = False                       # not for objects being deleted unless opted in
     # resume handlers never run on an object marked for deletion unless they opted in
     for i in w.invocations:
-        if i['id'] == 'hr' and i.get('deleting'):
+        if i['id'] in ('hr', 'hrn') and i.get('deleting'):
             ok = False
     # not handled before (a new object): creation never mixes with resuming in the same process ... until handled
     return vkopf.verdict(ok)
@@ -143,11 +154,11 @@ def h_resume(s0: int, s1: int, s2: int, s3: int) -> bool:
 
 def obligations():
     obs = split(Ob('h_resume', {'n': 2, 'handled_before': True}, timeout=1200, path_timeout=300, twins=['resumed']),
-                s0=list(range(6)))
+                s0=list(range(7)))
     obs.append(Ob('h_resume', {'n': 3, 'handled_before': True, 'pin': {'s0': 3, 's1': 2, 's2': 1}}, timeout=900, path_timeout=300))
     obs.append(Ob('h_resume', {'n': 3, 'handled_before': True, 'pin': {'s0': 3, 's1': 2, 's2': 0}}, timeout=900, path_timeout=300))
     obs += split(Ob('h_resume', {'n': 3, 'handled_before': False}, timeout=3000, path_timeout=300, tiers=('thorough',)),
-                 s0=list(range(6)), s1=list(range(6)))
+                 s0=list(range(7)), s1=list(range(7)))
     obs += split(Ob('h_resume', {'n': 3, 'handled_before': True}, timeout=3000, path_timeout=300, tiers=('thorough',)),
-                 s0=list(range(6)), s1=list(range(6)))
+                 s0=list(range(7)), s1=list(range(7)))
     return obs
